@@ -280,6 +280,11 @@ class StreamWriter(AbstractStreamWriter):
         if chunk and self._on_chunk_sent is not None:
             await self._on_chunk_sent(chunk)
 
+        if isinstance(chunk, memoryview) and chunk.nbytes != len(chunk):
+            # just reshape it, like write() does: the chunk-size prefix
+            # counts bytes, len() of a multi-byte-item view counts items
+            chunk = chunk.cast("c")
+
         # Handle body/compression
         if self._compress:
             chunks: list[bytes] = []
